@@ -1,3 +1,4 @@
+mod astcanon;
 mod engine;
 mod grids;
 mod isolate;
